@@ -334,6 +334,42 @@ def r17_14(run, model):
     run.floor("functions recording type-parameter bounds", n, 2)
 
 
+def r17_18(run, model):
+    run.rule("R17.18", "resolving an overloaded call is progress: the constraint solver runs while a round changed something; an arm that "
+                       "replaces the constraint it took by one of another kind (the operator constraint by the equation with the chosen "
+                       "impl's type) marks the round as changed in the same block - otherwise, when it is the last thing to happen, the loop "
+                       "stops with the equation unsolved and a well-typed trait method call is reported as `Could not solve all constraints`")
+    UNI = "crates/compiler/src/typer/unify.rs"
+    f = model.fn("solve", UNI, impl="Typer")
+    loops = [w for w in S.find(f.body, "While") if S.idents(w["cond"])]
+    if not loops:
+        raise AnalysisIncomplete("Typer::solve: the fixpoint loop was not found")
+    loop = loops[0]
+    flag = sorted(S.idents(loop["cond"]))[0]
+    par = S.Parents(f.body)
+    n = 0
+    for m in S.find(loop["body"], "Match"):
+        for arm in m["arms"]:
+            mm = re.match(r"Constraint::(\w+)", S.norm_ws(run.facts.text(UNI, arm["pat"]["sp"])))
+            if not mm:
+                continue
+            taken = mm.group(1)
+            for c in S.walk(arm["body"]):
+                if c["k"] != "MethodCall" or c["method"] != "push" or not c["args"]:
+                    continue
+                pm = re.match(r"Constraint::(\w+)", S.norm_ws(run.facts.text(UNI, c["args"][0]["sp"])))
+                if not pm or pm.group(1) == taken:
+                    continue
+                n += 1
+                blk = next((a for a in par.ancestors(c) if a["k"] == "Block"), None)
+                marks = [a for a in S.walk(blk) if a["k"] == "Assign" and S.is_path(a["left"], flag) and a["right"]["k"] == "Lit" and str(a["right"].get("value")).lower() == "true"] if blk else []
+                run.ob("R17.18", f"solve|replacing {taken} by {pm.group(1)} counts as a change", bool(marks), site(UNI, c["sp"]),
+                       f"`{flag} = true` in the block that queues the new constraint: {len(marks)}",
+                       witness="trait Show { fn show(Self) -> string; } impl Show for P; fn main() { let s = Show::show(P{..}); .. } as the only "
+                               "thing left to solve: `Could not solve all constraints: [TypeEqual(..)]`")
+    run.floor("constraints replaced by one of another kind in the solver", n, 1)
+
+
 def r17_15(run, model):
     run.rule("R17.15", "every call form finds the same implementations: wherever the typer searches for an implementation of a trait for a "
                        "type (the solver of `Tr::m(x, ..)`, the visibility test behind `x.m(..)` through a bound and behind the coercion to "
@@ -470,9 +506,12 @@ def run(run, model):
     run.try_rule(r17_15, model)
     run.try_rule(r17_16, model)
     run.try_rule(r17_17, model)
+    run.try_rule(r17_18, model)
     # the call forms agree only if `Self` is instantiated under every type former of a trait method's signature (shared with C07 R07.2)
     from rules import c07 as _c07
     run.try_rule(_c07.r07_2, model, None, "C17")
+    # the instance a method call is sent to is chosen by this unification (shared with C07 R07.22)
+    run.try_rule(_c07.r07_22, model)
     from rules import c09
     run.rule("R17.5", "the call forms are emitted alike in effect position: static calls (ECall) and dyn calls (EDynCall) both become a Go "
                       "statement when their value is unused (shared with C09 R09.6)")
